@@ -570,6 +570,35 @@ func (r *Runner) lockPartyMain(p *lockParty, ops []Op, isPeer bool, peer *peerPr
 				}
 			}
 			p.cnt["holder_token_writes"]++
+		case "work":
+			// ordinary use of the open handle - a merge, a sync, a backup, a batch, a scan: none of it may change who
+			// holds the directory (no event for the lock model). What the calls return is other properties' business.
+			if isPeer || !p.holding {
+				continue
+			}
+			db := p.db
+			pm, fr := protect(func() {
+				switch op.N {
+				case 0:
+					_ = db.Merge()
+				case 1:
+					_ = db.Sync()
+				case 2:
+					_ = db.Backup(filepath.Join(r.Root, fmt.Sprintf("bk-%d-%d", p.id, i)))
+				case 3:
+					b := db.NewBatch(kv.BatchOptions{Sync: i%2 == 0})
+					_ = b.Put([]byte(fmt.Sprintf("batch-%d", p.id)), []byte(fmt.Sprintf("step-%d", i)))
+					_ = b.Commit()
+				default:
+					_ = db.Fold(func(k, v []byte) bool { return true })
+					_ = db.Stat()
+				}
+			})
+			if pm != "" {
+				p.fail(prop, "panic", "work@"+fr, "use of the open handle (kind %d): %s (in %s)", op.N, clip(pm, 300), fr)
+				return
+			}
+			p.cnt[fmt.Sprintf("holder_work_%d", op.N)]++
 		case "reclose":
 			// Close on a handle that was already closed (the repository's own tests do this in their cleanup): it no
 			// longer holds the lock, so it must not change who does - no event for the lock model
@@ -629,12 +658,24 @@ func genLock(c *Case, rng *vrt.Rand, tier string) func(r *Runner, i int) *Op {
 	}
 	n := rng.Range(2, 4)
 	c.Clients = make([][]Op, n)
+	janitor := withData && rng.Chance(0.7)
+	// holders also use their handle (seeded change S52: a Merge that releases the directory lock). No merges while a
+	// janitor damages a data file by name: an adopted merge would put the holders' tokens into that very file.
+	work := rng.Chance(0.5)
 	for ci := range c.Clients {
 		m := rng.Range(2, 8)
 		for j := 0; j < m; j++ {
 			switch x := rng.Intn(10); {
 			case x < 5:
 				c.Clients[ci] = append(c.Clients[ci], Op{K: "open"})
+				if work && rng.Chance(0.5) {
+					k := rng.Pick([]int{4, 1, 1, 1, 1})
+					if janitor && k == 0 {
+						k = 1
+					}
+					c.Clients[ci] = append(c.Clients[ci], Op{K: "work", N: k})
+					j++
+				}
 			case x < 8:
 				c.Clients[ci] = append(c.Clients[ci], Op{K: "close"})
 			case x < 9:
@@ -648,7 +689,7 @@ func genLock(c *Case, rng *vrt.Rand, tier string) func(r *Runner, i int) *Op {
 			}
 		}
 	}
-	if withData && rng.Chance(0.7) {
+	if janitor {
 		// a janitor damages and repairs the older data file: Opens in between fail after taking the lock
 		var j []Op
 		for k := 0; k < rng.Range(1, 3); k++ {
